@@ -3500,7 +3500,9 @@ class Network(Cached):
                 subnet.nsi_degree()
                 Aplus = (A + np.identity(N)).astype(int)
                 if stopping_mode == "twinness":
-                    twinness = self.nsi_twinness()
+                    #  rows / columns must follow the component's own node
+                    #  numbering, like Aplus, w and sp_P
+                    twinness = subnet.nsi_twinness()
 
                 #  Get the sparse P matrix that gets modified and inverted
                 sp_P = (subnet.sp_nsi_diag_k_inv() * subnet.sp_Aplus()
